@@ -324,12 +324,21 @@ impl Pool3 {
                 assets: {
                     const P: [[usize; 3]; 6] = [[0, 1, 2], [0, 2, 1], [1, 0, 2], [1, 2, 0], [2, 0, 1], [2, 1, 0]];
                     let o = P[(self.perm_next.get() % 6) as usize];
-                    [self.asset(o[0], amounts[o[0]]), self.asset(o[1], amounts[o[1]]), self.asset(o[2], amounts[o[2]])]
+                    let mut v = [self.asset(o[0], amounts[o[0]]), self.asset(o[1], amounts[o[1]]), self.asset(o[2], amounts[o[2]])];
+                    if self.perm_next.get() >= 6 {
+                        // hostile: every native pool asset is declared as a cw20 token whose "address" is the denom
+                        for a in v.iter_mut() {
+                            if let AssetInfo::NativeToken { denom } = a.info.clone() {
+                                a.info = AssetInfo::Token { contract_addr: denom };
+                            }
+                        }
+                    }
+                    v
                 },
                 slippage_tolerance: slippage.map(|s| Decimal::from_str(s).unwrap()),
                 receiver: None,
             },
-            self.funds_for(&[(0, amounts[0]), (1, amounts[1]), (2, amounts[2])]),
+            if self.perm_next.get() >= 6 { vec![] } else { self.funds_for(&[(0, amounts[0]), (1, amounts[1]), (2, amounts[2])]) },
         ));
         msgs
     }
@@ -565,7 +574,7 @@ impl Scenario for Pool3 {
                     _ => [d0, rng.edge_amount(bal[1] / 2).max(1), rng.edge_amount(bal[2] / 2).max(1)],
                 };
                 let slippage = if rng.chance(1, 4) { Some(atomics_to_dec(*rng.pick(&[0u128, E18 / 100, E18 / 2, E18, E18 + 1]))) } else { None };
-                Op::Provide { amounts, slippage, perm: if rng.chance(1, 2) { 0 } else { rng.below(6) as u8 } }
+                Op::Provide { amounts, slippage, perm: if rng.chance(1, 2) { 0 } else if rng.chance(1, 8) { 6 + rng.below(6) as u8 } else { rng.below(6) as u8 } }
             }
             1 if rng.chance(1, 8) => Op::WithdrawDirect { coin: rng.idx(4), amount: *rng.pick(&[1u128, 1000, 3000, 3001, 999_999]) },
             1 => Op::Withdraw { lp: if lp == 0 { rng.range128(0, 5) } else { match rng.below(4) { 0 => lp, 1 => 1, _ => rng.edge_amount(lp) } } },
